@@ -8,6 +8,7 @@ import SnowProofs.Lemmas.Snowing2D
 import SnowProofs.Lemmas.Stencil1D
 import SnowProofs.Lemmas.Snowing2DRun
 import SnowProofs.Lemmas.RunBounds
+import SnowProofs.Lemmas.DefaultLink
 import SnowModel.Flake
 import Mathlib.Analysis.SpecialFunctions.Sqrt
 import Mathlib.Tactic.NormNum
@@ -407,6 +408,22 @@ theorem nuc0D_eq_direct_hyps :
         * (RunBounds.qDef.const.mass_solute / RunBounds.qDef.const.mass_water) := by
   refine ⟨?_, ?_, ?_, ?_, ?_, ?_, ?_⟩ <;>
     simp only [Flake.deriveConsts, Flake.gammaDirect, yDef, RunBounds.qDef, one_real] <;> norm_num
+
+/-- Snowflake's derived constants of the default primaries `yDef` are those the GENERATED
+`calculateDerived` returns for the GENERATED default YAML tree (`DefaultLink.gen_default_constants`,
+exact over ℚ) -/
+theorem yDef_is_generated_default :
+    (Flake.deriveConsts yDef).depression = ((18530 / 65037 : ℚ) : ℝ)
+    ∧ (Flake.deriveConsts yDef).mass = ((1 / 1000 : ℚ) : ℝ)
+    ∧ (Flake.deriveConsts yDef).cp_solution = ((80793 / 20 : ℚ) : ℝ)
+    ∧ (Flake.deriveConsts yDef).hl = ((80793 / 20000 : ℚ) : ℝ)
+    ∧ (Flake.deriveConsts yDef).alpha = ((-126749 / 400 : ℚ) : ℝ)
+    ∧ (Flake.deriveConsts yDef).beta_solution = ((49903143 / 43358000 : ℚ) : ℝ)
+    ∧ DefaultLink.genField "alpha" = some (-126749 / 400)
+    ∧ DefaultLink.genField "hl" = some (80793 / 20000)
+    ∧ DefaultLink.genField "beta_solution" = some (49903143 / 43358000) := by
+  refine ⟨?_, ?_, ?_, ?_, ?_, ?_, by decide +kernel, by decide +kernel, by decide +kernel⟩ <;>
+    simp only [Flake.deriveConsts, yDef, one_real] <;> norm_num
 
 /-- the hypotheses of `radial_uniform_preserved` hold for a concrete non-trivial case (the
 3 × 3 witness grid, shelf configuration, the uniform field, zero top flux), and those of
